@@ -212,6 +212,17 @@ theorem T_C07_first_wins_op (pos : Nat → V3) (bs : List (Nat × Nat × Nat)) (
     obtain ⟨t, ht, rfl⟩ := (mem_reqsOfOp hbs).mp hq
     exact hown t ht hvq hsq
 
+/-- **histories with re-assembly**: `EdgeList.clear()` followed by the same `add` calls gives the
+    same entries — after any number of `Mesh.clear(); assemble()` / `Mesh.backport()` rounds the
+    edges section is the one of the first assembly (so every theorem above holds for it) -/
+theorem T_C07_reassemble (pos : Nat → V3) (bs : List (Nat × Nat × Nat)) (ops : List ROp) (n : Nat) :
+    reassembled pos (allReqs bs ops) n = asmEdges pos bs ops := by
+  cases n <;> rfl
+
+theorem T_C07_reassemble_model (locPos : Nat → V3) (bs : List (Nat × Nat × Nat)) (us : List UOp) (n : Nat) :
+    assembleAgain locPos bs us n = assemble locPos bs us := by
+  cases n <;> rfl
+
 /-! non-vacuity: the hypotheses hold for the real tables and for concrete operations -/
 
 example : beamsOk (directedBeams.getD []) = true := by decide
@@ -489,18 +500,66 @@ theorem T_C07_angle_sense (p1 p2 axis : V3) (t : Rat) :
     angleCentre p2 p1 axis (-t) = angleCentre p1 p2 axis t := by
   apply V3.ext' <;> simp [angleCentre] <;> ring
 
-/-! ### known finding, at model level -/
+/-! ### the edge every wire holds (repaired `Mesh.assemble`) -/
 
-/-- `Wire.edge:defined-later`: a block assembled before the operation that defines a shared edge
-    keeps a line on its wire although the edge list ends up with a curved entry for that pair.
-    Here the second cube defines the edge between vertices 1 and 2 (its closing edge 3), the first
-    cube's wire on beam (1,2) holds a line. -/
-theorem T_C07_wire_stale_counterexample :
+/-- a re-linked wire holds a listed entry, or nothing is listed for its vertex pair -/
+theorem relink_spec (es : List Entry) (w : Entry) :
+    (relink es w ∈ es ∧ (relink es w).same w = true) ∨ (relink es w = w ∧ ∀ e ∈ es, e.same w = false) := by
+  unfold relink
+  cases hf : find es w.v1 w.v2 with
+  | some e =>
+    left
+    obtain ⟨hm, hs⟩ := find_some hf
+    exact ⟨hm, by simp only [Option.getD_some]; unfold Entry.same; rw [samePair_comm]; exact hs⟩
+  | none =>
+    right
+    refine ⟨rfl, ?_⟩
+    intro e he
+    rw [find_none_iff] at hf
+    have := hf e he
+    unfold Entry.same; rw [samePair_comm]; exact this
+
+/-- **wires**: after assembly every wire of every block holds the entry written for its two
+    vertices (by `T_C07_entries_are_first` the first valid definition of that pair, whichever
+    operation gave it and whenever), or, when nothing is written for the pair, an unlisted edge -/
+theorem T_C07_wires (locPos : Nat → V3) (bs : List (Nat × Nat × Nat)) (us : List UOp) (w : Entry)
+    (hw : w ∈ (assemble locPos bs us).wires) :
+    w ∈ (assemble locPos bs us).edges ∨ ∀ e ∈ (assemble locPos bs us).edges, e.same w = false := by
+  simp only [assemble, List.mem_map] at hw ⊢
+  obtain ⟨w0, _, rfl⟩ := hw
+  rcases relink_spec _ w0 with ⟨h1, _⟩ | ⟨h1, h2⟩
+  · left; exact h1
+  · right; rw [h1]; exact h2
+
+/-- … hence two wires on the same two vertices (coincident wires of neighbouring blocks, or of a
+    collapsed block) hold the very same edge whenever that pair has an entry — they report the same
+    length to the grading -/
+theorem T_C07_wires_coincident (locPos : Nat → V3) (bs : List (Nat × Nat × Nat)) (us : List UOp)
+    (w1 w2 e : Entry) (h1 : w1 ∈ (assemble locPos bs us).wires) (h2 : w2 ∈ (assemble locPos bs us).wires)
+    (he : e ∈ (assemble locPos bs us).edges) (hs : w1.same w2 = true) (hes : e.same w1 = true) :
+    w1 = w2 ∧ w1 = e := by
+  have hd : Distinct (assemble locPos bs us).edges := run_distinct (List.Pairwise.nil)
+  have m1 : w1 ∈ (assemble locPos bs us).edges := by
+    rcases T_C07_wires locPos bs us w1 h1 with h | h
+    · exact h
+    · rw [h e he] at hes; cases hes
+  have m2 : w2 ∈ (assemble locPos bs us).edges := by
+    rcases T_C07_wires locPos bs us w2 h2 with h | h
+    · exact h
+    · have ht := Entry.same_trans hes hs
+      rw [h e he] at ht; cases ht
+  exact ⟨distinct_unique hd m1 m2 hs, (distinct_unique hd he m1 hes).symm⟩
+
+/-- the former finding `Wire.edge:defined-later` as a regression example: only the second cube
+    defines the edge between vertices 1 and 2 (its closing edge 3); the first cube's wire on beam
+    (1,2) now holds that polyLine entry too -/
+example :
     let u1 : UOp := { exU1 with bottom := ⟨[0, 1, 2, 3], [lineDatum, lineDatum, lineDatum, lineDatum]⟩,
                                 bottomOps := [], topOps := [] }
     let a := assemble exLoc (directedBeams.getD []) [u1, exU2]
     a.edges.length = 2 ∧ ⟨3, 7, exA⟩ ∈ a.edges ∧ ⟨2, 1, exP⟩ ∈ a.edges ∧
-      (a.wires.take 12).any (fun w => w == ⟨1, 2, lineDatum⟩ && w.same ⟨2, 1, exP⟩) = true := by
+      ((a.wires.take 12).filter (fun w => w.same ⟨2, 1, exP⟩)) = [⟨2, 1, exP⟩] ∧
+      ((a.wires.drop 12).filter (fun w => w.same ⟨2, 1, exP⟩)) = [⟨2, 1, exP⟩] := by
   decide +kernel
 
 end CBV.C07
